@@ -77,30 +77,30 @@ type Event struct {
 	Key    string          `json:"key,omitempty"`
 	Detail json.RawMessage `json:"detail,omitempty"`
 
-	Evals    int64            `json:"evals,omitempty"`
-	Counters map[string]int64 `json:"counters,omitempty"`
-	Distinct []string         `json:"distinct,omitempty"`
+	Evals    int64             `json:"evals,omitempty"`
+	Counters map[string]int64  `json:"counters,omitempty"`
+	Distinct []string          `json:"distinct,omitempty"`
 	Samples  []json.RawMessage `json:"samples,omitempty"`
 }
 
 // Ctx is handed to RunCase.
 type Ctx struct {
-	Prop *Property
-	Tier string
-	Seed int64
+	Prop    *Property
+	Tier    string
+	Seed    int64
 	Verbose bool
 
-	w        *bufio.Writer
-	f        *os.File
-	cur      int
-	curDesc  json.RawMessage
-	evals    int64
-	counters map[string]int64
-	distinct map[string]struct{}
-	samples  []json.RawMessage
+	w          *bufio.Writer
+	f          *os.File
+	cur        int
+	curDesc    json.RawMessage
+	evals      int64
+	counters   map[string]int64
+	distinct   map[string]struct{}
+	samples    []json.RawMessage
 	maxSamples int
-	nviol    int
-	State    interface{} // per-worker state owned by the property
+	nviol      int
+	State      interface{} // per-worker state owned by the property
 }
 
 func NewCtx(p *Property, tier string, seed int64, out *os.File) *Ctx {
@@ -183,6 +183,16 @@ func (c *Ctx) Violation(sig, key string, detail interface{}) {
 	if c.Verbose {
 		fmt.Printf("violation sig=%s key=%s detail=%s\n", sig, key, mustJSON(detail))
 	}
+}
+
+// AbortWorker ends this worker process after the current case (used when the code under test
+// left the process in a state that cannot be continued, e.g. a hung goroutine). The driver
+// re-queues the remaining cases of the batch.
+func (c *Ctx) AbortWorker() {
+	c.emit(&Event{T: "abort", ID: c.cur})
+	c.Summary()
+	c.f.Close()
+	os.Exit(0)
 }
 
 func (c *Ctx) Summary() {
